@@ -1168,10 +1168,25 @@ func ruleC10(c *Ctx) {
 	// R4 sibling agreement
 	a, b := sk["LogoutResponse"], sk["LogoutRequest"]
 	if a != nil && b != nil {
-		same := len(a) == len(b)
+		// accepting classes agree with their multiplicities; rejecting classes agree as sets (how many paths lead into
+		// one kind of rejection depends on how many redundant guards a function carries, not on what it accepts)
+		norm := func(xs []string) []string {
+			set := map[string]bool{}
+			for _, x := range xs {
+				if strings.HasPrefix(x, "reject") {
+					if i := strings.LastIndex(x, "×"); i >= 0 {
+						x = x[:i]
+					}
+				}
+				set[x] = true
+			}
+			return sortedStrings(set)
+		}
+		na, nb := norm(a), norm(b)
+		same := len(na) == len(nb)
 		if same {
-			for i := range a {
-				if a[i] != b[i] {
+			for i := range na {
+				if na[i] != nb[i] {
 					same = false
 				}
 			}
